@@ -427,7 +427,7 @@ fn path_to(d: &AgentDef, sp: &PSpec, target: &str, k: &mut u64) -> Option<Vec<St
             ops.push(format!("callsend {f} {m} {k}"));
         } else {
             let f = d.recvs.iter().find(|r| r.1.contains(&m))?.0;
-            ops.push(format!("peer {m} {}", if m == "ResponseKeepAlive" { "same".to_string() } else { k.to_string() }));
+            ops.push(format!("peer {m} {}", ptok(m, *k, true)));
             ops.push(format!("callrecv {f}"));
         }
     }
@@ -435,7 +435,11 @@ fn path_to(d: &AgentDef, sp: &PSpec, target: &str, k: &mut u64) -> Option<Vec<St
 }
 
 /// payload token of a peer message: the keep-alive response refers to the cookie of the last request
-fn ptok(m: &str, k: u64, same: bool) -> String { if m == "ResponseKeepAlive" { if same { "same".into() } else { "other".into() } } else { k.to_string() } }
+fn ptok(m: &str, k: u64, same: bool) -> String {
+    if m == "ResponseKeepAlive" { if same { "same".into() } else { ["other", "hi", "top"][(k % 3) as usize].into() } }
+    else if m == "KeepAlive" { [0u64, 1, 255, 256, 257, 32767, 32768, 65534, 65535][(k % 9) as usize].to_string() }   // u16 cookie boundaries
+    else { k.to_string() }
+}
 
 pub fn generate(g: &mut Gen) {
     let mut k = 0u64;
@@ -452,8 +456,8 @@ pub fn generate(g: &mut Gen) {
                 if d.raw_recv { variants.push(vec![format!("peer {m} {}", ptok(m, k, true)), "recv".into()]); }
                 for (f, c) in d.sends.iter().filter(|s| s.1 == *m) { variants.push(vec![format!("callsend {f} {c} {k}")]); }
                 for (f, _) in d.recvs {
-                    variants.push(vec![format!("peer {m} {}", if *m == "ResponseKeepAlive" { "same".into() } else { k.to_string() }), format!("callrecv {f}")]);
-                    if *m == "ResponseKeepAlive" { variants.push(vec!["peer ResponseKeepAlive other".into(), format!("callrecv {f}")]); }
+                    variants.push(vec![format!("peer {m} {}", ptok(m, k, true)), format!("callrecv {f}")]);
+                    if *m == "ResponseKeepAlive" { for wrong in ["other", "hi", "top"] { variants.push(vec![format!("peer ResponseKeepAlive {wrong}"), format!("callrecv {f}")]); } }
                 }
                 for (f, c, r) in d.comps.iter().filter(|c| c.1 == *m) {
                     // every reply the peer could have queued, including none-matching ones
@@ -510,7 +514,7 @@ pub fn generate(g: &mut Gen) {
                     if d.raw_send { ops.push(format!("send {} {k}", t.1)); }
                 } else if let Some(r) = d.recvs.iter().find(|r| r.1.contains(&t.1)) {
                     let same = g.rng.chance(5, 6);
-                    ops.push(format!("peer {} {}", t.1, if t.1 == "ResponseKeepAlive" { if same { "same".to_string() } else { "other".to_string() } } else { k.to_string() }));
+                    ops.push(format!("peer {} {}", t.1, ptok(t.1, k, same)));
                     ops.push(format!("callrecv {}", r.0));
                     if t.1 != "ResponseKeepAlive" || same { cur = t.2; }
                     continue;
@@ -537,7 +541,9 @@ pub fn generate(g: &mut Gen) {
 }
 
 // ------------------------------------------------------------------------------------------ run
-struct Peer { demux: Demuxer, mux: Muxer, marker: AgentChannel, seq: u8, proto: &'static str, role: &'static str, cookie: u16, _plexer: RunningPlexer }
+struct Peer { demux: Demuxer, mux: Muxer, marker: AgentChannel, seq: u8, proto: &'static str, role: &'static str, cookie: u16,
+              /// cookie of the last KeepAlive the peer wrote (what a keep-alive *server* has to echo) and of the last response seen
+              last_request: Option<u16>, last_response: Option<u16>, _plexer: RunningPlexer }
 
 impl Peer {
     /// everything the agent emitted since the last call, as message classes
@@ -556,10 +562,15 @@ impl Peer {
         // `same` refers to the cookie of the latest request made through send_keepalive_request (a raw
         // send_message(KeepAlive) does not touch the client's state)
         if let (true, Some(c)) = (track_cookie, cookie) { self.cookie = c; }
+        if classes.iter().any(|c| c == "ResponseKeepAlive") { self.last_response = cookie; }
         classes.join("+")
     }
     async fn write(&mut self, class: &str, tok: &str) -> bool {
-        let k = match tok { "same" => self.cookie as u64, "other" => (self.cookie ^ 1) as u64, t => t.parse().unwrap_or(0) };
+        // keep-alive responses: the outstanding cookie, or that cookie with bit 0 / 8 / 15 flipped (a cookie
+        // comparison narrowed to u8, or one that drops the top bit, would let `hi` / `top` through)
+        let k = match tok { "same" => self.cookie as u64, "other" => (self.cookie ^ 1) as u64, "hi" => (self.cookie ^ 0x100) as u64,
+                            "top" => (self.cookie ^ 0x8000) as u64, t => t.parse().unwrap_or(0) };
+        if class == "KeepAlive" { self.last_request = Some(k as u16); }   // (kept for the evidence; the oracle tracks the queue itself)
         let Some(bytes) = encode(self.proto, class, k) else { return false };
         // what a client agent reads arrives with the server bit set
         let id = if self.role == "client" { proto_id(self.proto) | 0x8000 } else { proto_id(self.proto) };
@@ -576,7 +587,7 @@ async fn start(p: &str, role: &str) -> Option<(A, Peer)> {
     let agent = new_agent(p, role, ch)?;
     let running = plexer.spawn();
     let (r, w) = Bearer::Unix(b).into_split();
-    Some((agent, Peer { demux: Demuxer::new(r), mux: Muxer::new(w), marker, seq: 0, proto: d.proto, role: d.role, cookie: 0, _plexer: running }))
+    Some((agent, Peer { demux: Demuxer::new(r), mux: Muxer::new(w), marker, seq: 0, proto: d.proto, role: d.role, cookie: 0, last_request: None, last_response: None, _plexer: running }))
 }
 
 async fn with_timeout<T>(f: impl std::future::Future<Output = Option<Result<T, String>>>) -> Option<Result<T, String>> {
@@ -586,6 +597,9 @@ async fn with_timeout<T>(f: impl std::future::Future<Output = Option<Result<T, S
 async fn run_async(case: &Case, out: &mut Out) {
     let mut cur: Option<(A, Peer, &'static PSpec, &'static AgentDef)> = None;
     let mut queue: Vec<String> = vec![]; // oracle's view of the peer messages not yet read
+    let mut ka_cookies: Vec<u16> = vec![]; // cookies of the queued KeepAlive requests, in order
+    let mut served: Option<u16> = None;    // cookie of the request a keep-alive server last took in through its method
+    let mut resp_tokens: Vec<String> = vec![]; // tokens of the queued keep-alive responses (same | other | hi | top)
     let (mut acc, mut rej) = (0, 0);
     for op in &case.ops {
         let k: u64 = op.last().and_then(|s| s.parse().ok()).unwrap_or(0);
@@ -602,7 +616,7 @@ async fn run_async(case: &Case, out: &mut Out) {
                     }
                     out.ok(a.state());
                     cur = Some((a, p, sp, d));
-                    queue.clear();
+                    queue.clear(); ka_cookies.clear(); served = None; resp_tokens.clear();
                 }
                 _ => out.reply("bad-op".into()),
             }
@@ -615,7 +629,12 @@ async fn run_async(case: &Case, out: &mut Out) {
         let ag = agency(sp.name, &before);
         match op[0].as_str() {
             "peer" if op.len() == 3 => {
-                if peer.write(&op[1], &op[2]).await { queue.push(op[1].clone()); out.reply("ok".into()); } else { out.reply("bad-op".into()); }
+                if peer.write(&op[1], &op[2]).await {
+                    queue.push(op[1].clone());
+                    if op[1] == "KeepAlive" { ka_cookies.push(peer.last_request.unwrap_or(0)); }
+                    if op[1] == "ResponseKeepAlive" { resp_tokens.push(op[2].clone()); }
+                    out.reply("ok".into());
+                } else { out.reply("bad-op".into()); }
             }
             "send" | "callsend" if op.len() >= 3 => {
                 let (m, res) = if op[0] == "send" { (op[1].clone(), with_timeout(a.raw_send(&op[1], k)).await) }
@@ -632,6 +651,9 @@ async fn run_async(case: &Case, out: &mut Out) {
                              format!("{} of {m} in state {before}: the specification {} the {} to send it there", op[0], if want.is_some() { "lets" } else { "does not let" }, d.role));
                 }
                 if accepted && sent != m { out.viol(format!("n1-emit:{who}:{before}+{m} emitted={sent}"), "an accepted send must put exactly that message on the wire"); }
+                if accepted && op[0] == "callsend" && m == "ResponseKeepAlive" && peer.last_response != served {
+                    out.viol(format!("n1-cookie-echo:{who}"), format!("keep-alive response carries cookie {:?}, the request had {:?}", peer.last_response, served));
+                }
                 if !accepted && sent != "none" { out.viol(format!("n1-emit:{who}:{before}+{m} refused-but-emitted={sent}"), "a refused send must not reach the wire"); }
                 let want_after = if op[0] == "send" || !accepted { before.clone() } else { want.unwrap_or(&before).to_string() };
                 if after != want_after && (accepted == want.is_some()) {
@@ -648,6 +670,14 @@ async fn run_async(case: &Case, out: &mut Out) {
                 let read = !matches!(&res, Err(e) if e == "AgencyIsOurs" || e == "Timeout" || e == "AlreadyInitialized");
                 let m = if read && !queue.is_empty() { Some(queue.remove(0)) } else { None };
                 let accepted = res.is_ok();
+                if m.as_deref() == Some("ResponseKeepAlive") && !resp_tokens.is_empty() {
+                    let tok = resp_tokens.remove(0);
+                    if accepted && op[0] == "callrecv" && tok != "same" {
+                        out.viol(format!("n1-cookie-accepted:{who}:{tok}"), format!("{} accepted a keep-alive response whose cookie differs from the request's (bit {} flipped)", op[1],
+                                 match tok.as_str() { "other" => "0", "hi" => "8", _ => "15" }));
+                    }
+                }
+                if m.as_deref() == Some("KeepAlive") && !ka_cookies.is_empty() { let c = ka_cookies.remove(0); if accepted && op[0] == "callrecv" { served = Some(c); } }
                 match &m {
                     Some(m) => {
                         let permitted = if ag != me && ag != 'N' { sp.step(&before, m).map(|x| x.0) } else { None };
